@@ -103,8 +103,11 @@ def build():
     w.define('BLK()', 'forall(Block, lambda b: b.pending_conns >= 0 and b.conn_waiters_num >= 0 and implies(len(b.conns) > 0 or b.pending_conns > 0 or b.conn_waiters_num > 0, REG(b)))')
     w.define('OWN()', 'forall(Block, Conn, lambda b, c: implies(c in b.conns, allocated(b.conns[c]) and b.conns[c].g_b == b and b.conns[c].g_c == c))')
     w.define('KEYS()', 'forall(str, lambda k: implies(k in POOL._blocks, POOL._blocks[k].dbname == k and allocated(POOL._blocks[k])))')
-    w.define('GINV()', 'CAP() and BOUND() and G_X >= 0 and ALLBI() and DISJ() and OWN() and BLK() and KEYS()')
-    GINVL = ['CAP()', 'BOUND()', 'G_X >= 0', 'ALLBI()', 'DISJ()', 'OWN()', 'BLK()', 'KEYS()']
+    # C16 lemma W6 (the rebalancing tick stays armed): while acquire requests are in flight a tick is scheduled -- the tick is what opens connections for
+    # queued requests when capacity was freed without being handed over (GC, pruning, failed connects), so a pool that stops ticking strands them
+    w.define('TICK()', 'implies(POOL._nacquires > 0, not is_none(POOL._htick))')
+    w.define('GINV()', 'CAP() and BOUND() and G_X >= 0 and ALLBI() and DISJ() and OWN() and BLK() and KEYS() and TICK()')
+    GINVL = ['CAP()', 'BOUND()', 'G_X >= 0', 'ALLBI()', 'DISJ()', 'OWN()', 'BLK()', 'KEYS()', 'TICK()']
     ALLMOD = ['Block.' + f for f in ('conns', 'quota', 'pending_conns', 'last_connect_timestamp', 'conn_acquired_num', 'conn_waiters_num', 'conn_waiters', 'conn_stack',
                                      'connect_failures_num', 'suppressed', '_cached_calibrated_demand', '_is_log_batching', '_last_log_timestamp', '_log_events')] + \
              ['CS.in_use', 'CS.in_use_since', 'CS.in_stack_since', 'CS.g_b', 'CS.g_c', 'Fut.st'] + \
@@ -306,7 +309,9 @@ def build():
     w.contract(POOLPY, 'BasePool._capture_snapshot', params={'self': 'Pool', 'now': 'float'}, returns='none', trusted=True, modifies=['Pool._current_snapshot'])
     w.contract(POOLPY, 'BasePool._report_snapshot', params={'self': 'Pool'}, returns='none', trusted=True, modifies=['Pool._current_snapshot'])
     w.opaque_exprs['config.MIN_CONN_TIME_THRESHOLD'] = 'float'; w.opaque_exprs['config.MIN_QUERY_TIME_THRESHOLD'] = 'float'; w.opaque_exprs['config.MIN_LOG_TIME_THRESHOLD'] = 'float'
-    w.contract(POOLPY, 'Pool._maybe_schedule_tick', params={'self': 'Pool'}, returns='none', modifies=['Pool._first_tick', 'Pool._htick', 'Pool._current_snapshot', 'Pool._loop'])
+    w.contract(POOLPY, 'Pool._maybe_schedule_tick', params={'self': 'Pool'}, returns='none', modifies=['Pool._first_tick', 'Pool._htick', 'Pool._current_snapshot', 'Pool._loop'],
+        ensures=['implies(self._nacquires != 0, not is_none(self._htick))', 'implies(not is_none(old(self._htick)), not is_none(self._htick))',
+                 'heap_same_except("Pool._htick", self) and heap_same_except("Pool._first_tick", self)'])
     ERRS = {'WaiterError': dict(ensures=GINVL), 'CancelledError': dict(ensures=GINVL)}
     w.contract(POOLPY, 'Pool._acquire', params={'self': 'Pool', 'dbname': 'str'}, state=PGH, returns='Conn',
         requires=[SELF, *GINVL], modifies=ALLMOD,
